@@ -4,8 +4,10 @@ package llvmx
 
 import (
 	"bytes"
+	"context"
 	"os/exec"
 	"syscall"
+	"time"
 )
 
 // Result of running a tool.
@@ -17,13 +19,21 @@ type Result struct {
 }
 
 func run(stdin []byte, name string, args ...string) Result {
-	cmd := exec.Command(name, args...)
+	// A tool that does not answer within the limit counts as "oracle unavailable" (Crashed), never as a verdict.
+	ctx, cancel := context.WithTimeout(context.Background(), 60*time.Second)
+	defer cancel()
+	cmd := exec.CommandContext(ctx, name, args...)
 	cmd.Stdin = bytes.NewReader(stdin)
 	var out, errb bytes.Buffer
 	cmd.Stdout = &out
 	cmd.Stderr = &errb
 	err := cmd.Run()
 	r := Result{Out: out.String(), Err: errb.String()}
+	if ctx.Err() != nil {
+		r.Crashed = true
+		r.Err = "timeout: " + name
+		return r
+	}
 	if err == nil {
 		r.OK = true
 		return r
